@@ -121,6 +121,26 @@ func CheckC17(run *Run) {
 	if err != nil {
 		run.Fatal("runner (isolated): %v", err)
 	}
+	// keep only calls that are delivered intact when issued alone (the concurrent runner scripts the
+	// response by the request the handler sees; calls hit by a known C01 defect are C01's subject)
+	{
+		k := 0
+		var isoKept []json.RawMessage
+		for _, b := range batches {
+			var kept []*call
+			for _, c := range b.calls {
+				var io RunnerObs
+				json.Unmarshal(isoRaw[k], &io)
+				if len(io.HandlerCalls) == 1 && io.HandlerCalls[0].Req == WireHex(c.req) && io.Client != nil && io.Client.Resp != nil {
+					kept = append(kept, c)
+					isoKept = append(isoKept, isoRaw[k])
+				}
+				k++
+			}
+			b.calls = kept
+		}
+		isoRaw = isoKept
+	}
 	var conc []any
 	for bi, b := range batches {
 		var calls []any
